@@ -274,6 +274,32 @@ func C15(c *core.Ctx) {
 		d3 := &document.DocumentEx{Document: o.docEx.Document, Session: o.docEx.Session}
 		d3.Document.Mf.Lds1.Com, d3.Document.Mf.CardAccess, d3.Document.Mf.Lds1.Dg14 = nil, nil, nil
 		docs = append(docs, docCase{fmt.Sprintf("session-%s-fewer-files", cfg.Access), d3})
+		// the evidence of a mechanism is exported whatever its live verdict was (a failed step is examined offline too)
+		d4 := &document.DocumentEx{Document: o.docEx.Document, Session: cloneSession(o.docEx.Session)}
+		if r := d4.Session.PaceCamResult; r != nil {
+			r.Success = false
+		}
+		if r := d4.Session.ChipAuthResult; r != nil {
+			r.Success = false
+		}
+		if r := d4.Session.ActiveAuthResult; r != nil {
+			r.Success = false
+		}
+		docs = append(docs, docCase{fmt.Sprintf("session-%s-steps-recorded-as-failed", cfg.Access), d4})
+		if i == 0 {
+			// EF.DIR as Doc 9303-10 table 31 shows it: several application templates (several top-level data objects)
+			dirBytes := chipsim.BuildDIR(chipsim.AIDLDS1, []byte{0xA0, 0x00, 0x00, 0x02, 0x47, 0x20, 0x01}, []byte{0xA0, 0x00, 0x00, 0x02, 0x47, 0x20, 0x02}, []byte{0xA0, 0x00, 0x00, 0x02, 0x47, 0x20, 0x03})
+			if dir, err := document.NewEFDIR(dirBytes); err != nil {
+				c.Violation("C15:ef-dir-rejected", fmt.Sprintf("EF.DIR with four application templates is not parsed: %v", err), nil)
+			} else {
+				if !bytes.Equal(dir.GetRawData(), dirBytes) {
+					c.Violation("C15:object-does-not-hold-the-file", fmt.Sprintf("NewEFDIR: the object holds %x, the file is %x", dir.GetRawData(), dirBytes), nil)
+				}
+				d5 := &document.DocumentEx{Document: o.docEx.Document}
+				d5.Document.Mf.Dir = dir
+				docs = append(docs, docCase{"session-with-ef-dir-of-four-applications", d5})
+			}
+		}
 	}
 	docs = append(docs, docCase{"empty", &document.DocumentEx{}})
 
